@@ -267,3 +267,111 @@ def local_init(fn, name):
             if v["name"] == name:
                 return v.get("init", -1), v
     return -1, None
+
+
+# ---------------------------------------------------------------- provenance
+class Expander:
+    """Renders an expression with single-definition locals replaced by their
+    defining expression (provenance in expression form):
+      * local initialised once and never re-assigned  -> its initialiser
+      * range-for variable                            -> elem(<range expr>)
+      * parameter                                     -> param:<name>
+      * captured variable of a closure                -> resolved in the enclosing function
+    Locals holding closures keep their name.  Re-assigned locals render as
+    var:<name> (the rule then has to look at the writes)."""
+
+    def __init__(self, prog, fn):
+        from ..cfg import CondNorm
+        self.prog, self.fn = prog, fn
+        # locals (references included) bound once and never assigned afterwards
+        from ..callgraph import node_writes
+        inits, assigned = {}, set()
+        for i in fn.all("decl"):
+            for v in fn.nodes[i].get("vars", []):
+                if "init" in v:
+                    inits[v["decl"]] = v["init"]
+        for i, n in enumerate(fn.nodes):
+            tgt = None
+            if n["k"] == "bin" and n["op"] in ("=", "+=", "-=", "*=", "/=", "|=", "&="):
+                tgt = n["l"]
+            elif n["k"] == "un" and n["op"] in ("++", "--"):
+                tgt = n["sub"]
+            elif n["k"] == "call" and n.get("op") in ("=", "+=", "-=", "++", "--") and "recv" in n:
+                tgt = n["recv"]
+            elif n["k"] == "call":
+                for a in n.get("args", []):
+                    m = fn.nodes[fn.strip(a)]
+                    if m["k"] == "un" and m["op"] == "&":
+                        t = fn.var_token(m["sub"])
+                        if t and t.startswith("L:"):
+                            assigned.add(t[2:])
+                # containers filled in place, objects handed out by mutable reference
+                for t in node_writes(fn, i):
+                    if t.startswith("L:") and n.get("op") != "()":
+                        assigned.add(t[2:])
+            if tgt is not None:
+                t = fn.var_token(tgt)
+                if t and t.startswith("L:"):
+                    assigned.add(t[2:])
+        self.single = {d: n for d, n in inits.items() if d not in assigned}
+        self.loopvars = {}
+        for i in fn.all("rangefor"):
+            n = fn.nodes[i]
+            lv = n.get("loopvar", -1)
+            if lv >= 0:
+                for v in fn.nodes[lv].get("vars", []):
+                    self.loopvars[v["decl"]] = n["range"]
+                    for b in v.get("bindings", []):
+                        self.loopvars[b] = n["range"]
+        self.params = {p["decl"]: p["name"] for p in fn.params}
+        self.parent = prog.fns.get(fn.d.get("parentfn")) if fn.d.get("parentfn") else None
+        self._pexp = None
+        self._active = set()
+
+    def _cb(self, n):
+        dk = n.get("dk")
+        d = n.get("decl")
+        if dk == "param":
+            if n.get("captured") and self.parent is not None:
+                if self._pexp is None:
+                    self._pexp = Expander(self.prog, self.parent)
+                return self._pexp._decl_text(d, n["name"])
+            return "param:" + n["name"]
+        if dk in ("local", "binding"):
+            if d not in self.params and self.fn.vardecl(d)[1] is None and d not in self.loopvars \
+                    and self.parent is not None:
+                if self._pexp is None:
+                    self._pexp = Expander(self.prog, self.parent)
+                return self._pexp._decl_text(d, n["name"])
+            return self._decl_text(d, n["name"])
+        return None
+
+    def _decl_text(self, d, name):
+        if d in self.params:
+            return "param:" + name
+        if d in self._active:
+            return "var:" + name
+        if d in self.loopvars:
+            self._active.add(d)
+            try:
+                return "elem(%s)" % self.fn.text(self.loopvars[d], 0, self._cb)
+            finally:
+                self._active.discard(d)
+        if d in self.single:
+            init = self.single[d]
+            if any(self.fn.nodes[x]["k"] == "lambda" for x in self.fn.walk(init)):
+                return name
+            self._active.add(d)
+            try:
+                return self.fn.text(init, 0, self._cb)
+            finally:
+                self._active.discard(d)
+        _, v = self.fn.vardecl(d)
+        if v is None and self.parent is not None:
+            if self._pexp is None:
+                self._pexp = Expander(self.prog, self.parent)
+            return self._pexp._decl_text(d, name)
+        return "var:" + name
+
+    def __call__(self, i):
+        return self.fn.text(i, 0, self._cb)
